@@ -872,6 +872,8 @@ where
                 )
             })?;
         }
+        #[cfg(pearl_verif)]
+        crate::verif::io(crate::verif::IoOp::Rename, path, Some(&corrupted_path), 0, 0)?;
         tokio::fs::rename(&path, &corrupted_path)
             .await
             .with_context(|| {
@@ -887,6 +889,8 @@ where
     async fn remove_index_by_blob_path(path: &Path) -> Result<()> {
         let index_path = path.with_extension(blob::BLOB_INDEX_FILE_EXTENSION);
         if index_path.exists() {
+            #[cfg(pearl_verif)]
+            crate::verif::io(crate::verif::IoOp::Remove, &index_path, None, 0, 0)?;
             tokio::fs::remove_file(&index_path)
                 .await
                 .with_context(|| anyhow!(format!("failed to remove file {:?}", index_path)))?;
@@ -1137,6 +1141,8 @@ where
         if let None = safe.active_blob {
             let blob_opt = safe.blobs.write().await.pop();
             if let Some(blob) = blob_opt {
+                #[cfg(pearl_verif)]
+                crate::verif::event("active_restored", &[("blob", blob.id() as u64)], None);
                 safe.active_blob = Some(Box::new(ASRwLock::new(blob)));
                 Ok(())
             } else {
@@ -1159,6 +1165,8 @@ where
         if let None = safe.active_blob {
             let next = self.next_blob_name()?;
             let blob = Blob::open_new(next, self.iodriver.clone(), self.config.blob()).await?;
+            #[cfg(pearl_verif)]
+            crate::verif::event("active_set", &[("blob", blob.id() as u64)], None);
             safe.active_blob = Some(Box::new(ASRwLock::new(blob)));
             Ok(())
         } else {
@@ -1177,8 +1185,12 @@ where
             // always true
             if let Some(ablob) = safe.active_blob.take() {
                 let ablob = (*ablob).into_inner();
+                #[cfg(pearl_verif)]
+                let verif_id = ablob.id() as u64;
                 ablob.fsyncdata().await?;
                 safe.blobs.write().await.push(ablob).await;
+                #[cfg(pearl_verif)]
+                crate::verif::event("active_closed", &[("blob", verif_id)], None);
             }
             Ok(())
         }
@@ -1346,6 +1358,8 @@ where
     }
 
     pub(crate) async fn replace_active_blob(&mut self, blob: Blob<K>) -> Result<()> {
+        #[cfg(pearl_verif)]
+        crate::verif::event("active_replaced", &[("blob", blob.id() as u64)], None);
         let old_active = self.active_blob.replace(Box::new(ASRwLock::new(blob)));
         if let Some(blob) = old_active {
             self.blobs.write().await.push(blob.into_inner()).await;
